@@ -20,12 +20,13 @@ def classify_crash(cr):
 
 SPEC = {
     'id': 'C12',
-    'lean_modules': ['AITB.Props.C12Spec', 'AITB.Props.C12Interp', 'AITB.Props.C12InterpOpt', 'AITB.Props.C12CheckSound'],
+    'lean_modules': ['AITB.Props.C12Spec', 'AITB.Props.C12Interp', 'AITB.Props.C12InterpOpt', 'AITB.Props.C12CheckSound', 'AITB.Props.C12PruneStrong'],
     'theorems': [
         # headline statements (library tolerances / exact reading)
         'AITB.Prune.extractDominated_spec', 'AITB.Prune.extractDominated_exact_spec',
         'AITB.Prune.incremental_eq_union_spec', 'AITB.Prune.incremental_eq_union_exact',
         'AITB.Prune.pruner_spec', 'AITB.Prune.dominates_not_transitive',
+        'AITB.Prune.extractDominated_no_strong', 'AITB.Prune.extractDominated_no_strong_dominates', 'AITB.Prune.incremental_ranges',
         # generic pruning theorems (any element type, any domination test)
         'AITB.Prune.extractDominated_perm', 'AITB.Prune.extractDominated_chain', 'AITB.Prune.extractDominated_value',
         'AITB.Prune.extractDominated_value_exact', 'AITB.Prune.extractDominated_antichain',
